@@ -3,12 +3,15 @@ from .common import A_COMMON
 Q = "menelaus.change_detection.adwin:ADWIN"
 QA = "menelaus.concept_drift.adwin_accuracy:ADWINAccuracy"
 TARGETS = [("fn", Q + "." + f) for f in ("mean", "variance", "_check_epsilon", "_add_sample", "_remove_last", "update")] + \
-          [("fn", QA + ".__init__"), ("fn", QA + ".update"), ("lemma", "remove_bucket_identity"), ("lemma", "merge_buckets_identity")]
+          [("fn", QA + ".__init__"), ("fn", QA + ".update"), ("lemma", "remove_bucket_identity"), ("lemma", "merge_buckets_identity")] + \
+          [("fn", "menelaus.change_detection.adwin:" + f) for f in ("_BucketRow.shift", "_BucketRow.remove_buckets", "_BucketRow.add_bucket",
+                                                                     "_BucketRowList.remove_tail")]
 LEVEL = "exploration"
-LEVEL_TEXT = ('Bounded: real ADWIN / ADWINAccuracy against a reference model whose buckets keep their raw inputs (window size, mean, population variance of exactly the W most recent inputs, cut rule over all admissible bucket-boundary splits, retraining_recs, constructor parameters) on multi-shift streams over a parameter grid incl. max_buckets=1. The deductive stage of DESIGN.md 9/C03 is not built in this round; claimed as exploration.')
+LEVEL_TEXT = ('Bounded: real ADWIN / ADWINAccuracy against a reference model whose buckets keep their raw inputs (window size, mean, population variance of exactly the W most recent inputs, cut rule over all admissible bucket-boundary splits, retraining_recs, constructor parameters) on multi-shift streams over a parameter grid incl. max_buckets=1. Deductive (counted separately): stage 1 of DESIGN.md 9/C03 (Welford step, removal of the oldest bucket with its lemma, mean / variance, _check_epsilon, update, ADWINAccuracy) and the bucket-row primitives (shift = drop the oldest buckets and zero-fill, add_bucket, remove_buckets, remove_tail); stage 2 (row-structure invariant, _compress_buckets, _shrink_window) is not built; claimed as exploration.')
 ASSUMPTIONS = A_COMMON + [
-    "ASSUMED (unverified) contracts: ADWIN._shrink_window, ADWIN._compress_buckets, _BucketRow.remove_buckets, "
-    "_BucketRowList.remove_tail; _remove_last's precondition bucket_ok (the oldest bucket's variance entry is Q_b - T_b^2/n_b) "
+    "ASSUMED (unverified) contracts: ADWIN._shrink_window, ADWIN._compress_buckets (both need the invariant over the whole "
+    "bucket-row list); the row primitives _BucketRow.shift / remove_buckets / add_bucket and _BucketRowList.remove_tail are verified; "
+    "_remove_last's precondition bucket_ok (the oldest bucket's variance entry is Q_b - T_b^2/n_b) "
     "is the row-structure invariant of stage 2, not proved",
     "A-LIST: nodes of the bucket-row list reached through head / tail / next / prev are pairwise distinct, lazily "
     "materialised objects",
